@@ -110,6 +110,8 @@ def gen_case(rng):
     p['layout'] = rng.choice(['natural', 'natural', 'flat', 'matrix', 'unit_axis'])
     # the contract is relative: the whole array may be tiny or huge
     p['global_scale'] = rng.choice([0, 0, 0, -30, -20, -17, -12, 12, 25]) if p['dt'] in ('f64', 'c128') else 0
+    # complex sources may be lazily conjugated views (conj bit set), as produced by torch.conj
+    p['lazy_conj'] = p['dt'] == 'c128' and p['src'] == 'torch' and rng.random() < 0.3
     return p
 
 
@@ -256,6 +258,9 @@ def exec_case(p, res, plans=None, rng=None):
     A, known, generic = build_dense(p)
     if p.get('global_scale'):
         A = A * (10.0 ** p['global_scale'])
+    if p.get('lazy_conj'):
+        A = torch.conj(A.resolve_conj().conj().resolve_conj())      # same values, conj bit set
+        core.bump(stats, 'probe.lazy_conj_source')
     p2 = dict(p)
     p2['eps'] = eps_of(p)
     fam = '%s|d%d|%s|%s|%s|%s' % (p['cls'], len(p['N']), 'M' if p.get('ttm') else 'T', p['dt'], p['src'],
